@@ -325,7 +325,8 @@ def handleSaveHyp (j : Json) : Except String Json := do
   | .ok files, .ok out =>
     let same := match out.files with | .ok f2 => decide (f2 = files) | .error _ => false
     let good := files.all fun r => !contentTypes.contains r.type || (match a.readXml r.path with | .ok root => goodTree root | .error _ => true)
-    pure (Json.mkObj [("files_same", toJson same), ("saveSane", toJson (saveSane files)), ("goodTree", toJson good)])
+    let imgs := files.all fun r => !(r.type == lit "image" || r.type == lit "core-properties") || !(contentPaths files).contains r.path
+    pure (Json.mkObj [("files_same", toJson same), ("saveSane", toJson (saveSane files)), ("goodTree", toJson good), ("imagesSane", toJson imgs)])
   | _, _ => pure (Json.mkObj [("err", .str "save or files raise")])
 
 /-- `{"op":"valid", …package…}`: `validT` (hypothesis of `C13_part_total`) of every content part as it is walked
